@@ -4,7 +4,8 @@ from .. import gen, guards, proc
 PROP = "C19"
 LEVEL = "fault_enumeration"
 RULE = (
-    "the matrix entry point x invalid-specification class is enumerated completely: BOTH permeate conditions given to each "
+    "the matrix entry point x invalid-specification class is enumerated completely: BOTH permeate conditions (30 % of them with a "
+    "stated pressure of exactly 0 kPa) given to each "
     "of the 12 driving-force entry points (inner flux evaluation, flux solver, permeate-composition and separation-factor "
     "helpers, ideal and non-ideal curve, 4 process models, pure-component flux, curve construction from fluxes) under both "
     "activity models; a mixture without interaction parameters; NRTL / UNIQUAC parameters missing (activity coefficients, "
@@ -28,7 +29,10 @@ def shards(tier, seed):
 
 def _both(rng, fc):
     """a permeate temperature AND a permeate pressure"""
-    return rng.uniform(150, fc.t_feed - 1), rng.uniform(0, 5)
+    pp = rng.uniform(0, 5)
+    if rng.random() < 0.3:
+        pp = rng.choice([0.0, 0, 1e-300])  # an explicitly stated pressure of 0 kPa is still a stated pressure
+    return rng.uniform(150, fc.t_feed - 1), pp
 
 
 def _fc(rng, model):
@@ -50,7 +54,7 @@ def cell_both(entry, model):
         tp, pp = _both(rng, fc)
         # the control keeps one of the two conditions
         keep_t = rng.random() < 0.5
-        ctl = (tp, None) if keep_t else (None, min(pp, 0.5))
+        ctl = (tp, None) if keep_t else (None, min(float(pp), 0.5))
         pv, T, x, prec = fc.pv, fc.t_feed, fc.comp, fc.precision
         if entry == "get_partial_fluxes_from_permeate_composition":
             from pyvaporation.mixtures import Composition
